@@ -57,7 +57,8 @@ Print Assumptions C10_unbounded_before_fix.
 (* --- flag discipline ----------------------------------------------------------------------------------------- *)
 (* (a) a write command (which enters without the stale flag) never leaves flagged as replica read or stale read;
    (b) the first attempt does not carry the retry marker, every later attempt of the same call does;
-   (c) a read whose timestamp failed validation is never sent. *)
+   (c) a read whose timestamp failed validation is never sent, whatever engine serves it (req.StoreTp TiKV or TiFlash);
+       only requests served by a TiDB node are exempt from the validation. *)
 Theorem C10_flags : forall c script rands sleeps,
   (c_read c = false -> c_stale c = false ->
      Forall (fun e => match e with EAtt _ rr st _ => rr = false /\ st = false | _ => True end) (fst (run c script rands sleeps))) /\
@@ -65,12 +66,12 @@ Theorem C10_flags : forall c script rands sleeps,
    | [] => True
    | first :: later => first = false /\ Forall (fun d => d = true) later
    end) /\
-  (c_read c = true -> c_val c = false -> run c script rands sleeps = ([], RError)).
+  (c_read c = true -> c_val c = false -> c_store_tp c <> TpTiDB -> run c script rands sleeps = ([], RError)).
 Proof.
   intros c script rands sleeps. split; [|split].
-  - intros R ST. unfold run, run_gen. rewrite R. cbn [andb]. apply (loop_write true c script R ST); cbn; rewrite R; reflexivity.
+  - intros R ST. unfold run, run_gen, validation_refuses. rewrite R. cbn [andb]. apply (loop_write true c script R ST); cbn; rewrite R; reflexivity.
   - apply (run_retry true).
-  - intros R V. unfold run, run_gen. rewrite R, V. reflexivity.
+  - intros R V T. unfold run, run_gen, validation_refuses. rewrite R, V. destruct (c_store_tp c); try reflexivity. congruence.
 Qed.
 Print Assumptions C10_flags.
 
@@ -96,7 +97,7 @@ Print Assumptions C10_no_fabrication.
    cap and maxSleep.  (Context cancellation / kill are not modelled.) *)
 Theorem C10_error_only_when_spent : forall c script rands sleeps evs,
   run c script rands sleeps = (evs, RError) ->
-  (c_read c = true /\ c_val c = false) \/
+  (c_read c = true /\ c_val c = false /\ c_store_tp c <> TpTiDB) \/
   ((0 < c_max_sleep c)%N /\
    ((c_max_sleep c <= tot evs - exc evs)%N \/ ((excl_limit <= exc evs)%N /\ (c_max_sleep c <= exc evs)%N))).
 Proof. intros c script rands sleeps evs H. exact (run_error true c script rands sleeps evs H). Qed.
@@ -115,7 +116,7 @@ Print Assumptions C10_backoffs_bounded.
 
 (* --- non-vacuity --------------------------------------------------------------------------------------------- *)
 Definition c_stale_read : cfg := mkCfg RTMixed true true false false false false 100000%N true
-  [fresh_rep Reachable false false false; fresh_rep Reachable false false false; fresh_rep Reachable false false false] false.
+  [fresh_rep Reachable false false false; fresh_rep Reachable false false false; fresh_rep Reachable false false false] false TpTiKV.
 (* stale read: DataIsNotReady on the first replica, ServerIsBusy on the leader, RPC error on the last replica *)
 Example ex_stale_read :
   run c_stale_read [ODataIsNotReady; OBusy false; ORpcErr Reachable] [0; 0] [55; 1057]%N =
@@ -125,9 +126,9 @@ Proof. vm_compute. reflexivity. Qed.
 Example ex_no_rearm : n_rearms (fst (run c0 (repeat (ORpcErr Reachable) 40) [] [])) = 0 /\
   n_attempts (fst (run c0 (repeat (ORpcErr Reachable) 40) [] [])) = 12.
 Proof. vm_compute. auto. Qed.
-Example ex_budget : snd (run (mkCfg RTLeader false true false false false false 120%N true (c_reps c0) false) (repeat (ORpcErr Reachable) 40) [] [73; 105]%N) = RError.
+Example ex_budget : snd (run (mkCfg RTLeader false true false false false false 120%N true (c_reps c0) false TpTiKV) (repeat (ORpcErr Reachable) 40) [] [73; 105]%N) = RError.
 Proof. vm_compute. reflexivity. Qed.
-Example ex_write : fst (run (mkCfg RTFollower false false false false false false 100000%N true (c_reps c0) false) [OStaleCommand] [1] []) =
+Example ex_write : fst (run (mkCfg RTFollower false false false false false false 100000%N true (c_reps c0) false TpTiKV) [OStaleCommand] [1] []) =
   [EAtt 2 false false false; EAtt 1 false false true].
 Proof. vm_compute. reflexivity. Qed.
 (* regression for F10: the lasso now terminates — 4 re-arms (2 per ping-pong replica), then no replica is left *)
@@ -137,10 +138,16 @@ Proof. vm_compute. auto. Qed.
 
 (* forwarding: leader store unreachable from the client, the request goes through replica 1 (ForwardedHost = leader) *)
 Definition c_fwd : cfg := mkCfg RTLeader false true false false false false 100000%N true
-  [fresh_rep Unreachable false false false; fresh_rep Reachable false false false; fresh_rep Reachable false false false] true.
+  [fresh_rep Unreachable false false false; fresh_rep Reachable false false false; fresh_rep Reachable false false false] true TpTiKV.
 Example ex_forward : run c_fwd [] [] [] = ([EProxy 1; EAtt 0 false false false], RSuccess 0).
 Proof. vm_compute. reflexivity. Qed.
 (* budget of 120 ms: the third RPC back-off is refused *)
-Example ex_spent : let r := run (mkCfg RTLeader false true false false false false 120%N true (c_reps c0) false) (repeat (ORpcErr Reachable) 40) [] [73; 105]%N in
+Example ex_spent : let r := run (mkCfg RTLeader false true false false false false 120%N true (c_reps c0) false TpTiKV) (repeat (ORpcErr Reachable) 40) [] [73; 105]%N in
   snd r = RError /\ tot (fst r) = 178%N /\ n_plain (fst r) = 2%N.
+Proof. vm_compute. auto. Qed.
+
+(* validation gate: a TiFlash-served read with a failing timestamp is refused, a TiDB-served one is exempt by design *)
+Example ex_validate_tp :
+  run (mkCfg RTLeader false true false false false false 100000%N false (c_reps c0) false TpTiFlash) [] [] [] = ([], RError) /\
+  snd (run (mkCfg RTLeader false true false false false false 100000%N false (c_reps c0) false TpTiDB) [] [] []) = RSuccess 0.
 Proof. vm_compute. auto. Qed.
